@@ -69,7 +69,10 @@ impl RouterHandler {
         bmp_metrics: Arc<BmpStateMachineMetrics>,
     ) -> Self {
         Self {
-            gate,
+            // This handle is only used to send updates; the commands of the
+            // unit's gate are followed by the clone that read_from_router()
+            // hands to the BMP stream reader.
+            gate: gate.into_send_only(),
             roto_function,
             router_id_template,
             filter_name,
